@@ -301,7 +301,16 @@ def execute(sc, out):
                             kw = {"L": int(min(lsel[1], len(x)))}
                         else:
                             kw = {"fres": cfg["fs"] / float(min(lsel[1], len(x)))}
-                        rs = an.compute_single_bin(f, **kw)
+                        sel = (fsel[1] if fsel[0] == "grid" else int(fsel[1] * 1e5)) % 5
+                        if sel == 0:
+                            f_req = np.float32(f)                 # a user passing a NumPy scalar of another width
+                            f = float(f_req)
+                            out.count("single_bin_freq_as_float32")
+                        elif sel == 1:
+                            f_req = np.float64(f)
+                        else:
+                            f_req = f
+                        rs = an.compute_single_bin(f_req, **kw)
                         if len(rs.f) != 1 or float(rs.f[0]) != f:
                             out.violate("single_bin_frequency", "single", f"requested f={f!r}, result reports {np.asarray(rs.f)!r}")
                         if "L" in kw and int(rs.L[0]) != kw["L"]:
